@@ -93,9 +93,13 @@ Definition minimal_different_lengths (vecs : list (list str)) : nat :=
            (fold_right Nat.max 0%nat lens).
 
 Definition hints := list (str * nat).
-Definition compute_name_hints (e : element) : hints :=
-  map (fun '(k, trs) => (k, match trs with [_] => 1%nat | _ => minimal_different_lengths trs end))
-      (fill_names e [] []).
+Definition hints_of_buckets (b : buckets) : hints :=
+  map (fun '(k, trs) => (k, match trs with [_] => 1%nat | _ => minimal_different_lengths trs end)) b.
+(* `for (name, traces) in names.iter()` visits the buckets in the HashMap's iteration order:
+   an arbitrary rearrangement `ord` of them (C05 proves the result does not depend on it) *)
+Definition compute_name_hints_ord (ord : buckets -> buckets) (e : element) : hints :=
+  hints_of_buckets (ord (fill_names e [] [])).
+Definition compute_name_hints (e : element) : hints := compute_name_hints_ord (fun b => b) e.
 Fixpoint hint_get (h : hints) (k : str) : option nat :=
   match h with [] => None | (k', v) :: r => if str_eqb k k' then Some v else hint_get r k end.
 
@@ -242,8 +246,9 @@ Fixpoint render_abs_at (o : options) (tbl : name_table) (e : element) (pth : pat
       :: flat_map (fun x => snd (snd x)) sorted
   end.
 
-Definition render_abs (o : options) (e : element) : list structdef :=
-  render_abs_at o (compute_struct_names e (compute_name_hints e)) e [].
+Definition render_abs_ord (ord : buckets -> buckets) (o : options) (e : element) : list structdef :=
+  render_abs_at o (compute_struct_names e (compute_name_hints_ord ord e)) e [].
+Definition render_abs (o : options) (e : element) : list structdef := render_abs_ord (fun b => b) o e.
 
 (* ---------- printer ---------- *)
 Definition nl : str := [10].
@@ -268,4 +273,6 @@ Definition print_struct (d : structdef) : str :=
   ++ s "}" ++ nl ++ nl.
 Definition print (ds : list structdef) : str := flat_map print_struct ds.
 
+Definition to_serde_struct_ord (ord : buckets -> buckets) (o : options) (e : element) : str :=
+  print (render_abs_ord ord o e).
 Definition to_serde_struct (o : options) (e : element) : str := print (render_abs o e).
